@@ -1,1 +1,325 @@
-Example C07_placeholder : True. Proof. exact I. Qed.
+(* Properties_C07.v — C07: every user-defined pointer value is handed to the registered release
+   function exactly once; nothing is released twice.
+   Only statements here; proofs are in PtrProofs.v.
+
+   MODEL  Parser.setopt / init_defaults / parse_internal / parse_fp_gen / parse_buf / parse_file /
+          cfg_init / cfg_free, Store.free_value / opt_getval, Api.opt_setn / cfg_setn*, cfg_setlist,
+          cfg_addlist, opt_setmulti / cfg_setmulti, cfg_setopt_cmd, cfg_setcomment, cfg_addtsec,
+          opt_rmnsec / cfg_rmnsec / cfg_rmtsec / cfg_rmsec.
+          A pointer value is created by the scripted parse callback in cfg_setopt: the id w_nextptr w is
+          stored as VPtr id and the counter is incremented.  A release is a CbFree id entry on w_cbs.
+   VOCABULARY (PtrProofs.v)
+     ptrs_o o, ptrs_c c   := Store.frees_o o, Store.frees_c c: the non-zero ids of the VPtr values held by
+                             options of kind KPtr that have a release callback, in cfg_free() order
+     flog w               := the ids of the CbFree entries of w_cbs w, most recent first
+     created w w'         := the ids [w_nextptr w, w_nextptr w')
+     freed w w'           := the ids flog w' has in front of flog w, in the order of the calls
+     grows w w'           := flog w' = rev (freed w w') ++ flog w        (the release log only grows)
+     conserves w A w' A'  := w_nextptr w <= w_nextptr w' /\ grows w w' /\
+                             Permutation (A ++ created w w') (A' ++ freed w w')
+     Fresh w A            := 0 < w_nextptr w /\ NoDup A /\ forall id, In id A -> id < w_nextptr w
+     wf_o o / wf_c c      := wfb_o o = true / wfb_c c = true, the boolean test:
+                             - every option of kind KPtr has cb_free = true (a pointer option without release
+                               callback is by design never released by the library),
+                             - a value VSec (Some _) only occurs in an option of kind KSec,
+                             - every template (o_sub, recursively: tmplb) has no values, and its KPtr options
+                               have cb_free = true
+     event / run_event / run : the parse entry points and the by-name API calls on one context
+   HYPOTHESES  wf of the option / context, and 0 < w_nextptr w (id 0 is NULL and never released).
+   None of them can be dropped: see C07_ex_need_* at the end. *)
+From Coq Require String.
+Import String.StringSyntax.
+From Coq Require Import List Arith NArith ZArith Bool Permutation.
+From Coq.Strings Require Import Byte.
+From LC Require Import Bytes Consts Conv Flex LexAct Lexer Files Store Parser Api ApiProofs PtrProofs.
+Import ListNotations.
+Local Open Scope string_scope.
+Local Open Scope list_scope.
+Local Open Scope N_scope.
+
+(* ---------- 1. conservation through the three mutually recursive functions ---------- *)
+
+(* one cfg_setopt call on option o: pointers of o + ids created = pointers of o' + ids released *)
+Theorem C07_setopt_conserves :
+  forall (sd : str -> strtod_res) (fuel : nat) (w : pw) (c : cfg) (o : opt) (txt : option str),
+  wf_o o -> 0 < w_nextptr w ->
+  let r := setopt sd fuel w c o txt in
+  wf_o (snd (fst r)) /\ conserves w (ptrs_o o) (fst (fst r)) (ptrs_o (snd (fst r))).
+Proof. exact setopt_conserves. Qed.
+Print Assumptions C07_setopt_conserves.
+
+Theorem C07_init_defaults_conserves :
+  forall (sd : str -> strtod_res) (fuel : nat) (w : pw) (c : cfg),
+  wf_c c -> 0 < w_nextptr w ->
+  let r := init_defaults sd fuel w c in
+  wf_c (snd r) /\ conserves w (ptrs_c c) (fst r) (ptrs_c (snd r)).
+Proof. exact init_defaults_conserves. Qed.
+Print Assumptions C07_init_defaults_conserves.
+
+Theorem C07_parse_internal_conserves :
+  forall (sd : str -> strtod_res) (fuel : nat) (w : pw) (c : cfg) (level : nat) (p : pst),
+  wf_c c -> 0 < w_nextptr w ->
+  let r := parse_internal sd fuel w c level p in
+  wf_c (snd (fst r)) /\ conserves w (ptrs_c c) (fst (fst r)) (ptrs_c (snd (fst r))).
+Proof. exact parse_internal_conserves. Qed.
+Print Assumptions C07_parse_internal_conserves.
+
+(* ---------- 2. exactly once ---------- *)
+
+(* whenever a step conserves and the ids held before are pairwise distinct and below the counter:
+   the ids held after are again fresh, no id is released twice during the step, a released id was
+   held before or created during the step and is no longer held, and nothing is lost *)
+Theorem C07_exactly_once :
+  forall (w : pw) (A : list N) (w' : pw) (A' : list N),
+  conserves w A w' A' -> Fresh w A ->
+  Fresh w' A' /\ NoDup (freed w w') /\
+  (forall id, In id (freed w w') -> (In id A \/ In id (created w w')) /\ ~ In id A') /\
+  (forall id, In id A \/ In id (created w w') -> In id A' \/ In id (freed w w')).
+Proof. exact conserves_exactly_once. Qed.
+Print Assumptions C07_exactly_once.
+
+(* ---------- 3. cfg_free ---------- *)
+
+(* cfg_free hands exactly the pointers of the context to the release callback, in cfg_free() order *)
+Theorem C07_free_releases_all :
+  forall (w : pw) (c : cfg), freed w (cfg_free w c) = ptrs_c c.
+Proof. exact cfg_free_releases_all. Qed.
+Print Assumptions C07_free_releases_all.
+
+Theorem C07_free_conserves :
+  forall (w : pw) (c : cfg),
+  0 < w_nextptr w -> conserves w (ptrs_c c) (cfg_free w c) [] /\ created w (cfg_free w c) = [].
+Proof. exact cfg_free_conserves. Qed.
+Print Assumptions C07_free_conserves.
+
+(* ... each live pointer exactly once *)
+Theorem C07_free_exactly_once :
+  forall (w : pw) (c : cfg),
+  Fresh w (ptrs_c c) ->
+  NoDup (freed w (cfg_free w c)) /\ forall id, In id (ptrs_c c) <-> In id (freed w (cfg_free w c)).
+Proof. exact cfg_free_exactly_once. Qed.
+Print Assumptions C07_free_exactly_once.
+
+(* ---------- 4. the API ---------- *)
+
+(* cfg_opt_setnint/float/bool/str: the kinds the setters pass are scalar; a kind mismatch is refused *)
+Theorem C07_opt_setn_conserves :
+  forall (w : pw) (o : opt) (k : kind) (v : value) (index : N),
+  wf_o o -> 0 < w_nextptr w ->
+  (k <> KSec /\ k <> KPtr /\ (forall c, v <> VSec (Some c))) \/ o_kind o <> k ->
+  let r := opt_setn w o k v index in
+  wf_o (snd (fst r)) /\ conserves w (ptrs_o o) (fst (fst r)) (ptrs_o (snd (fst r))).
+Proof. exact opt_setn_conserves. Qed.
+Print Assumptions C07_opt_setn_conserves.
+
+(* cfg_opt_setmulti, both outcomes: on success the old values are released, on failure the new
+   ones are and the old ones are kept *)
+Theorem C07_opt_setmulti_conserves :
+  forall (sd : str -> strtod_res) (fuel : nat) (w : pw) (c : cfg) (o : opt) (vals : list (option str)),
+  wf_o o -> 0 < w_nextptr w ->
+  let r := opt_setmulti sd fuel w c o vals in
+  wf_o (snd (fst r)) /\ conserves w (ptrs_o o) (fst (fst r)) (ptrs_o (snd (fst r))) /\
+  (snd r = FAIL -> ptrs_o (snd (fst r)) = ptrs_o o).
+Proof. exact opt_setmulti_conserves. Qed.
+Print Assumptions C07_opt_setmulti_conserves.
+
+Theorem C07_opt_rmnsec_conserves :
+  forall (w : pw) (o : opt) (index : N),
+  wf_o o -> 0 < w_nextptr w ->
+  let r := opt_rmnsec w o index in
+  wf_o (snd (fst r)) /\ conserves w (ptrs_o o) (fst (fst r)) (ptrs_o (snd (fst r))).
+Proof. exact opt_rmnsec_conserves. Qed.
+Print Assumptions C07_opt_rmnsec_conserves.
+
+(* every parse entry point and every by-name call (cfg_parse_fp / cfg_parse_buf / cfg_parse, cfg_setnint /
+   float / bool / str, cfg_setlist, cfg_addlist, cfg_setmulti, cfg_setopt, cfg_setcomment, cfg_addtsec,
+   cfg_rmnsec, cfg_rmtsec, cfg_rmsec), on the whole context *)
+Theorem C07_event_conserves :
+  forall (sd : str -> strtod_res) (e : event) (w : pw) (c : cfg),
+  wf_c c -> 0 < w_nextptr w ->
+  let s := run_event sd e (w, c) in
+  wf_c (snd s) /\ conserves w (ptrs_c c) (fst s) (ptrs_c (snd s)).
+Proof. exact event_conserves. Qed.
+Print Assumptions C07_event_conserves.
+
+(* ---------- 5. histories ---------- *)
+
+Theorem C07_events_conserve :
+  forall (sd : str -> strtod_res) (es : list event) (w : pw) (c : cfg),
+  wf_c c -> 0 < w_nextptr w ->
+  let s := run sd es (w, c) in
+  wf_c (snd s) /\ conserves w (ptrs_c c) (fst s) (ptrs_c (snd s)).
+Proof. exact events_conserve. Qed.
+Print Assumptions C07_events_conserve.
+
+(* along any history the live pointers stay pairwise distinct and nothing is released twice *)
+Theorem C07_events_fresh :
+  forall (sd : str -> strtod_res) (es : list event) (w : pw) (c : cfg),
+  wf_c c -> Fresh w (ptrs_c c) ->
+  let s := run sd es (w, c) in
+  wf_c (snd s) /\ Fresh (fst s) (ptrs_c (snd s)) /\ NoDup (freed w (fst s)).
+Proof. exact events_fresh. Qed.
+Print Assumptions C07_events_fresh.
+
+(* cfg_init hands back a well-formed context with fresh ids when the declarations are templates *)
+Theorem C07_cfg_init_fresh :
+  forall (sd : str -> strtod_res) (fuel : nat) (w0 : pw) (decls : list opt) (flags : N),
+  0 < w_nextptr w0 -> forallb tmplb decls = true ->
+  let s1 := cfg_init sd fuel w0 decls flags in
+  wf_c (snd s1) /\ Fresh (fst s1) (ptrs_c (snd s1)) /\ conserves w0 [] (fst s1) (ptrs_c (snd s1)).
+Proof. exact cfg_init_fresh. Qed.
+Print Assumptions C07_cfg_init_fresh.
+
+(* THE HISTORY THEOREM: cfg_init, any list of events, cfg_free: the ids released during the whole
+   history are exactly the ids created during it, and none is released twice *)
+Theorem C07_history :
+  forall (sd : str -> strtod_res) (fuel : nat) (w0 : pw) (decls : list opt) (flags : N) (es : list event),
+  0 < w_nextptr w0 -> forallb tmplb decls = true ->
+  let s1 := cfg_init sd fuel w0 decls flags in
+  let sn := run sd es s1 in
+  let wend := cfg_free (fst sn) (snd sn) in
+  grows w0 wend /\ Permutation (freed w0 wend) (created w0 wend) /\ NoDup (freed w0 wend).
+Proof. exact history. Qed.
+Print Assumptions C07_history.
+
+(* the same from an arbitrary well-formed context with fresh ids: what is released up to and including
+   cfg_free is what was live at the start plus what was created, each exactly once *)
+Theorem C07_history_from :
+  forall (sd : str -> strtod_res) (es : list event) (w : pw) (c : cfg),
+  wf_c c -> Fresh w (ptrs_c c) ->
+  let s := run sd es (w, c) in
+  let wend := cfg_free (fst s) (snd s) in
+  grows w wend /\ Permutation (freed w wend) (ptrs_c c ++ created w wend) /\ NoDup (freed w wend).
+Proof. exact history_from. Qed.
+Print Assumptions C07_history_from.
+
+(* ---------- 6. the callback log itself only grows ---------- *)
+
+(* every step only adds entries in front of w_cbs (most recent first), so "the CbFree entries w' has in
+   addition to w" is well defined *)
+Theorem C07_log_grows :
+  forall (sd : str -> strtod_res) (fuel : nat) (w : pw) (c : cfg),
+  (forall o txt, exists new, w_cbs (fst (fst (setopt sd fuel w c o txt))) = new ++ w_cbs w) /\
+  (exists new, w_cbs (fst (init_defaults sd fuel w c)) = new ++ w_cbs w) /\
+  (forall l p, exists new, w_cbs (fst (fst (parse_internal sd fuel w c l p))) = new ++ w_cbs w) /\
+  (forall e, exists new, w_cbs (fst (run_event sd e (w, c))) = new ++ w_cbs w) /\
+  (exists new, w_cbs (cfg_free w c) = new ++ w_cbs w).
+Proof. exact log_grows. Qed.
+Print Assumptions C07_log_grows.
+
+(* ... and `freed` is the list of ids of the CbFree entries added, oldest first *)
+Theorem C07_freed_is_log_suffix :
+  forall (w w' : pw) (new : list cbent), w_cbs w' = new ++ w_cbs w -> freed w w' = rev (cb_ids new).
+Proof. exact ext_freed. Qed.
+Print Assumptions C07_freed_is_log_suffix.
+
+Theorem C07_history_log :
+  forall (sd : str -> strtod_res) (fuel : nat) (w0 : pw) (decls : list opt) (flags : N) (es : list event),
+  let s1 := cfg_init sd fuel w0 decls flags in
+  let sn := run sd es s1 in
+  let wend := cfg_free (fst sn) (snd sn) in
+  exists new, w_cbs wend = new ++ w_cbs w0 /\ freed w0 wend = rev (cb_ids new).
+Proof. exact history_log. Qed.
+Print Assumptions C07_history_log.
+
+(* ---------- a concrete schema with pointer options ---------- *)
+Module Ex.
+Definition B := bs_of_string.
+Definition sd := ex_sd.
+Definition w0 := ex_w0.                (* w_nextptr = 1, empty log *)
+(* parse callback #1 and a release callback *)
+Definition cbp : cbset :=
+  {| cb_parse := Some 1; cb_valid := None; cb_valid2 := None; cb_print := None; cb_free := true; cb_func := None |}.
+Definition mk n k fl sub cbs := Opt (B n) k fl [] sub defv0 None cbs.
+(* p: a pointer; pl: a pointer list (LIST); t: titled multi sections (MULTI|TITLE) holding a pointer q
+   and a pointer list ql; x: an integer *)
+Definition decls := [ mk "p" KPtr 0 [] cbp; mk "pl" KPtr 2 [] cbp;
+  mk "t" KSec 9 [mk "q" KPtr 0 [] cbp; mk "ql" KPtr 2 [] cbp] cbset0; mk "x" KInt 0 [] cbset0 ].
+Definition s1 := cfg_init sd 1000 w0 decls 0.
+Definition parse (t : String.string) := fst (parse_buf sd 5000 (fst s1) (snd s1) (Some (B t))).
+
+(* the hypotheses hold for the schema *)
+Example C07_ex_hypotheses :
+  forallb tmplb decls = true /\ 0 < w_nextptr w0 /\ wfb_c (snd s1) = true /\ ptrs_c (snd s1) = [].
+Proof. vm_compute. repeat split; reflexivity. Qed.
+
+(* p = a creates 1; p = b releases 1 and creates 2; the list creates 3 and 4; cfg_free releases 2, 3, 4:
+   the ids released are exactly 1..4, each once *)
+Definition r1 := parse "p = a p = b pl = {c, d}".
+Definition wend1 := cfg_free (fst r1) (snd r1).
+Example C07_ex_parse_free :
+  w_crash (fst r1) = None /\ w_oof (fst r1) = false /\ w_diags (fst r1) = [] /\
+  created w0 (fst r1) = [1; 2; 3; 4] /\ freed w0 (fst r1) = [1] /\ ptrs_c (snd r1) = [2; 3; 4] /\
+  freed (fst r1) wend1 = [2; 3; 4] /\
+  freed w0 wend1 = [1; 2; 3; 4] /\ created w0 wend1 = [1; 2; 3; 4].
+Proof. vm_compute. repeat split; reflexivity. Qed.
+
+(* sections: the second `t one` replaces the first instance in place (1, 2, 3 released); += appends *)
+Definition r2 := parse "t one { q = a ql = {b, c} } t two { q = d } t one { q = e } pl = {f} pl += {g}".
+Example C07_ex_sections :
+  w_crash (fst r2) = None /\ w_oof (fst r2) = false /\ w_diags (fst r2) = [] /\
+  created w0 (fst r2) = [1; 2; 3; 4; 5; 6; 7] /\ freed w0 (fst r2) = [1; 2; 3] /\
+  ptrs_c (snd r2) = [6; 7; 5; 4] /\
+  freed w0 (cfg_free (fst r2) (snd r2)) = [1; 2; 3; 6; 7; 5; 4].
+Proof. vm_compute. repeat split; reflexivity. Qed.
+
+(* a history through the API: remove a titled section, cfg_setmulti (success), cfg_setlist with no
+   values, cfg_addtsec, cfg_setopt inside the new section, cfg_rmsec, cfg_setopt replacing p *)
+Definition es := [EParseBuf 5000 (Some (B "t one { q = a ql = {b, c} } t two { q = d } p = e pl = {f, g}"));
+  ERmTsec (B "t") (Some (B "one")); ESetMulti 100 (B "pl") [Some (B "h"); Some (B "i"); Some (B "j")];
+  ESetList (B "pl") []; EAddTsec 100 (B "t") (Some (B "three")); ESetOpt 100 (B "t=three|q") (Some (B "k"));
+  ERmSec (B "t=two"); ESetOpt 100 (B "p") (Some (B "l")) ].
+Definition rn := run sd es s1.
+Definition wendn := cfg_free (fst rn) (snd rn).
+Example C07_ex_history :
+  w_crash (fst rn) = None /\ w_oof (fst rn) = false /\ w_diags (fst rn) = [] /\
+  ptrs_c (snd rn) = [12; 11] /\
+  freed w0 (fst rn) = [1; 2; 3; 6; 7; 8; 9; 10; 4; 5] /\
+  freed w0 wendn = [1; 2; 3; 6; 7; 8; 9; 10; 4; 5; 12; 11] /\
+  created w0 wendn = [1; 2; 3; 4; 5; 6; 7; 8; 9; 10; 11; 12].
+Proof. vm_compute. repeat split; reflexivity. Qed.
+
+(* cfg_setmulti failing on its second value (callback invocation 2 of the call fails): the new
+   pointer is released, the old ones are kept *)
+Definition wfail (w : pw) : pw := {| w_lex := w_lex w; w_env := w_env w; w_fs := w_fs w; w_pw := w_pw w; w_path := w_path w;
+  w_cbs := w_cbs w; w_cnt := w_cnt w; w_failat := w_cnt w + 2; w_nextptr := w_nextptr w; w_diags := w_diags w;
+  w_open := w_open w; w_crash := w_crash w; w_oof := w_oof w |}.
+Definition rf := cfg_setmulti sd 100 (wfail (fst r1)) (snd r1) (B "pl") [Some (B "u"); Some (B "v")].
+Example C07_ex_setmulti_fails :
+  snd rf = FAIL /\ ptrs_c (snd (fst rf)) = ptrs_c (snd r1) /\
+  created (fst r1) (fst (fst rf)) = [5] /\ freed (wfail (fst r1)) (fst (fst rf)) = [5].
+Proof. vm_compute. repeat split; reflexivity. Qed.
+
+(* ---------- the hypotheses cannot be dropped ---------- *)
+
+(* (a) a pointer option without release callback: its values are by design never handed to anybody;
+   the ids are created and not released (not a defect: the library has no callback to call) *)
+Definition cbn : cbset :=
+  {| cb_parse := Some 1; cb_valid := None; cb_valid2 := None; cb_print := None; cb_free := false; cb_func := None |}.
+Definition sa := cfg_init sd 1000 w0 [mk "p" KPtr 0 [] cbn] 0.
+Definition ra := fst (parse_buf sd 5000 (fst sa) (snd sa) (Some (B "p = a p = b"))).
+Example C07_ex_need_release_callback :
+  forallb tmplb [mk "p" KPtr 0 [] cbn] = false /\
+  created w0 (cfg_free (fst ra) (snd ra)) = [1; 2] /\ freed w0 (cfg_free (fst ra) (snd ra)) = [].
+Proof. vm_compute. repeat split; reflexivity. Qed.
+
+(* (b) a template that already holds a pointer value (cfg_dupopt_array copies the cfg_opt_t of the
+   application's array; with the CFG_* initialisers it has no values): every instance of the section
+   shares the id, cfg_free releases it once per instance *)
+Definition tq := Opt (B "q") KPtr 0 [VPtr 7] [] defv0 None cbp.
+Definition sb := cfg_init sd 1000 w0 [mk "t" KSec 9 [tq] cbset0] 0.
+Definition rb := fst (parse_buf sd 5000 (fst sb) (snd sb) (Some (B "t one { } t two { }"))).
+Example C07_ex_need_empty_templates :
+  forallb tmplb [mk "t" KSec 9 [tq] cbset0] = false /\
+  freed w0 (cfg_free (fst rb) (snd rb)) = [7; 7].
+Proof. vm_compute. repeat split; reflexivity. Qed.
+
+(* (c) id 0 is NULL: a world whose counter starts at 0 hands out an id that is never released *)
+Definition wz : pw := {| w_lex := w_lex w0; w_env := w_env w0; w_fs := w_fs w0; w_pw := w_pw w0; w_path := w_path w0;
+  w_cbs := []; w_cnt := 0; w_failat := 0; w_nextptr := 0; w_diags := []; w_open := 0; w_crash := None; w_oof := false |}.
+Definition sz := cfg_init sd 1000 wz decls 0.
+Definition rz := fst (parse_buf sd 5000 (fst sz) (snd sz) (Some (B "p = a"))).
+Example C07_ex_need_nonzero_ids :
+  created wz (cfg_free (fst rz) (snd rz)) = [0] /\ freed wz (cfg_free (fst rz) (snd rz)) = [].
+Proof. vm_compute. repeat split; reflexivity. Qed.
+End Ex.
